@@ -6,7 +6,7 @@ TF_UNITS = {"S": 1, "T": 60, "H": 3600, "D": 86400}
 TF_MULTS = [1, 2, 3, 5, 7, 10, 15, 30, 45]
 
 PRICE_STYLES = ["walk", "walk", "walk", "ints", "flat", "rising", "falling", "zerovol", "zerovol", "allzerovol", "repeat", "big", "small", "jumpy", "gappy",
-                "shock", "grid", "onedge", "fine", "quiet"]
+                "shock", "grid", "onedge", "fine", "quiet", "fracvol"]
 TS_STYLES = ["regular", "regular", "dups", "gaps", "biggaps", "mixed", "mixed", "phase"]
 
 
@@ -170,6 +170,10 @@ def gen_prices(rng, n, style=None):
                 h, l = max(h, o), min(l, o)
             if rng.random() < 0.05:
                 v = float(v) + rng.choice([0.0, 0.5, 0.25])
+            if style == "fracvol":
+                # decimal volumes (0.1, 0.37, 12.005 ...): sums of them are not associative in doubles, so anything that adds
+                # volumes in another order than the raw stream (collapsing twice, re-merging) shows in the last bit
+                v = round(rng.random() * rng.choice([1, 1, 10, 1000]), rng.choice([1, 1, 2, 3]))
         prev = (o, h, l, c, v)
         out.append(prev)
         p = c
